@@ -1328,12 +1328,20 @@ func convertDateFormat(format string) string {
 		"s": "05", // Seconds with leading zeros
 	}
 
-	result := format
-	for phpFormat, goFormat := range replacements {
-		result = strings.ReplaceAll(result, phpFormat, goFormat)
+	// Translate each character of the format once, from left to right. (Replacing
+	// letter by letter over the whole string while ranging over the map depended on
+	// Go's map iteration order: an earlier replacement could be rewritten by a later
+	// one, e.g. the "M" of "Mon", so the same format gave different results.)
+	var result strings.Builder
+	for _, c := range format {
+		if goFormat, ok := replacements[string(c)]; ok {
+			result.WriteString(goFormat)
+		} else {
+			result.WriteRune(c)
+		}
 	}
 
-	return result
+	return result.String()
 }
 
 // Additional filter implementations
